@@ -1,10 +1,10 @@
 SPECIFICATION Spec
 CONSTANTS
-  GroupSize = 5
-  ActiveThreshold = 4
-  GroupThreshold = 3
-  ClientQuorum = 4
-  MemberLists <- ListsSmall
+  GroupSize = 4
+  ActiveThreshold = 3
+  GroupThreshold = 2
+  ClientQuorum = 3
+  MemberLists <- OneList
   Envs <- OneEnv
   AdvKinds <- HazardAdv
   MaxAdversarial = 1
